@@ -14,6 +14,7 @@ import tempfile
 
 import numpy as np
 
+from . import argforms as af
 from . import qc
 from .qc import BinaryRBM, ComplexWaveFunction, DensityMatrix, PositiveWaveFunction, PurificationRBM, torch
 
@@ -148,8 +149,33 @@ def call_ctor(kind, kw, form=None):
     return KINDS[kind](*[kw[nm] if nm in kw else CTOR_DEFAULT[nm] for nm in names[: last + 1]])
 
 
+# ---------------------------------------------------------------- argument forms (round 5, harness/argforms.py)
+# operations whose public call has integer / boolean options: op["af"] seeds the stream of the objects handed over for them
+# (sizes, gpu, zero_weights, epochs / pos_batch_size / k of fit, period / save_initial / metadata_only of ModelSaver); the model op keeps the VALUES
+AF_OPS = ("construct", "constructFrom", "mkModule", "initModule", "train", "saverSave", "autoload")
+
+
+def add_forms(plan, rng):
+    """give every operation with options its argument-form seed (and a ModelSaver its period: a divisor of the epoch it is called with).
+    An operation that repeats the previous one (save again with the very same arguments) repeats its forms."""
+    prev = None
+    for op in plan:
+        if op["t"] in AF_OPS and "af" not in op:
+            if prev is not None and {k: v for k, v in prev.items() if k not in ("af", "period")} == op:
+                op.update({k: prev[k] for k in ("af", "period") if k in prev})
+            else:
+                op["af"] = af.new_seed(rng)
+                if op["t"] == "saverSave":
+                    e = op["path"]
+                    op["period"] = rng.choice([d for d in range(1, e + 1) if e % d == 0] if e else [1, 2, 3])
+        prev = op
+    return plan
+
+
 class Real:
     """the real objects of one history"""
+
+    ctx = None   # set by run_history: input-distribution counters of the argument forms
 
     def __init__(self, tseed):
         self.tmp = tempfile.mkdtemp(prefix="qv_store_")
@@ -438,13 +464,14 @@ class Real:
         t = op["t"]
         m = dict(op)
         err = None
+        fm = af.Forms(op.get("af"), self.ctx)   # integer / boolean options of this call as the objects a caller passes (no "af": Python literals)
         try:
             if t == "construct":
                 ud, ents = self.make_ud(op.get("ud"))
                 m["ud"] = ents
-                kw = {"num_visible": op["nv"], "num_hidden": op["nh"], "gpu": False}
+                kw = {"num_visible": fm.i("num_visible", op["nv"]), "num_hidden": fm.i("num_hidden", op["nh"]), "gpu": fm.gpu()}
                 if op["kind"] == "dens":
-                    kw["num_aux"] = op["na"]
+                    kw["num_aux"] = fm.i("num_aux", op["na"])
                 if op["kind"] != "pos":
                     kw["unitary_dict"] = ud
                 rs = torch.get_rng_state()
@@ -467,13 +494,15 @@ class Real:
             elif t == "mkModule":
                 zw = bool(op.get("zw", False))
                 rs = torch.get_rng_state()
-                kw = {"gpu": False}
+                kw = {"gpu": fm.gpu()}
                 if "zw" in op:
-                    kw["zero_weights"] = zw
-                if op["k"] == "binary":
-                    net = BinaryRBM(op["nv"], op["nh"], **kw)
+                    kw["zero_weights"] = fm.f("zero_weights", zw)
+                sizes = [fm.i("num_visible", op["nv"]), fm.i("num_hidden", op["nh"])] + ([fm.i("num_aux", op["na"])] if op["k"] != "binary" else [])
+                cls = BinaryRBM if op["k"] == "binary" else PurificationRBM
+                if "zw" in op and fm.pos("RBM(sizes..., zero_weights, gpu)"):   # both flags in their documented positions
+                    net = cls(*sizes, kw["zero_weights"], kw["gpu"])
                 else:
-                    net = PurificationRBM(op["nv"], op["nh"], op["na"], **kw)
+                    net = cls(*sizes, **kw)
                 self.modules[op["mslot"]] = net
                 m["rand"] = self.ref_draws(rs, [(False, self.weight_shapes(op["k"], op["nv"], op["nh"], op["na"]))])[0]
                 if not zw:
@@ -486,7 +515,11 @@ class Real:
                 if op.get("zw") is None:
                     net.initialize_parameters()
                 else:
-                    net.initialize_parameters(zero_weights=bool(op["zw"]))
+                    zwo = fm.f("zero_weights", bool(op["zw"]))
+                    if fm.pos("initialize_parameters(zero_weights)"):
+                        net.initialize_parameters(zwo)
+                    else:
+                        net.initialize_parameters(zero_weights=zwo)
                 if not op.get("zw"):
                     m["rand"] = self.drawn([net])[0]
             elif t == "constructFrom":
@@ -495,12 +528,12 @@ class Real:
                 # the sizes the caller passes ALONGSIDE the module (documented as taken from the module instead): `num_visible` is a required
                 # argument (op["nv"], 7 when the plan does not say), `num_hidden` / `num_aux` are passed only when the plan has the key
                 # (None = the explicit default, 0, the module's own size, or any other number)
-                kw = {"num_visible": op.get("nv", 7), "module": self.modules[op["mslot"]], "gpu": False}
-                m["nv"] = kw["num_visible"]
+                kw = {"num_visible": fm.i("num_visible", op.get("nv", 7)), "module": self.modules[op["mslot"]], "gpu": fm.gpu()}
+                m["nv"] = op.get("nv", 7)
                 if "nh" in op:
-                    kw["num_hidden"] = op["nh"]
+                    kw["num_hidden"] = fm.i("num_hidden", op["nh"])
                 if "na" in op and op["kind"] == "dens":
-                    kw["num_aux"] = op["na"]
+                    kw["num_aux"] = fm.i("num_aux", op["na"])
                 if op["kind"] != "pos":
                     kw["unitary_dict"] = ud
                 st = call_ctor(op["kind"], kw, op.get("form"))
@@ -519,7 +552,8 @@ class Real:
                 optimizer, oargs = OPTIMS[op.get("opt", "sgd")]
                 self.events = []
                 rec = _Recorder(self.events)
-                kw = dict(epochs=op.get("epochs", 2), pos_batch_size=2, k=1, lr=op.get("lr", 0.1),
+                kw = dict(epochs=fm.i("epochs", op.get("epochs", 2), af.FIT_INT["epochs"]), pos_batch_size=fm.i("pos_batch_size", 2, af.FIT_INT["pos_batch_size"]),
+                          k=fm.i("k", 1, af.FIT_INT["k"]), lr=op.get("lr", 0.1),
                           callbacks=[rec] + [mk(st) for mk in getattr(self, "extra_callbacks", [])],
                           optimizer=optimizer, optimizer_args=dict(oargs))
                 if op.get("sched"):
@@ -567,10 +601,16 @@ class Real:
                 # ModelSaver is driven through its PUBLIC interface only: constructor + the callback event `on_epoch_end(nn_state, epoch)`
                 # with a period that fires; the file it writes is `folder_path / file_name.format(epoch)` (documented contract), chosen
                 # such that it is the history's file number `path`
-                mk = lambda md_arg: ModelSaver(1, self.tmp, "file{}.pt", save_initial=False, metadata=md_arg,  # noqa: E731
-                                               metadata_only=op["metadataOnly"])
+                # argument forms: the period (a divisor of the epoch the callback is called with) as an integer object, save_initial /
+                # metadata_only as truthy / falsy objects, by keyword or all positionally
+                per, si = fm.i("ModelSaver period", op.get("period", 1), af.PERIOD_INT), fm.f("save_initial", False)
+                mo = fm.f("metadata_only", bool(op["metadataOnly"]))
+                if fm.pos("ModelSaver(period, folder_path, file_name, save_initial, metadata, metadata_only)"):
+                    mk = lambda md_arg: ModelSaver(per, self.tmp, "file{}.pt", si, md_arg, mo)  # noqa: E731
+                else:
+                    mk = lambda md_arg: ModelSaver(per, self.tmp, "file{}.pt", save_initial=si, metadata=md_arg, metadata_only=mo)  # noqa: E731
                 if op["src"] == "dict":
-                    key = ("dict", op["mdslot"], op["metadataOnly"])
+                    key = ("dict", op["mdslot"], op["metadataOnly"], op.get("period", 1), op.get("af"))
                     if key not in self.savers or self.savers[key][1] is not self.metas[op["mdslot"]]:
                         self.savers[key] = (mk(self.metas[op["mdslot"]]), self.metas[op["mdslot"]])  # one saver object, reused every period
                     saver = self.savers[key][0]
@@ -592,9 +632,10 @@ class Real:
                 m["rand"] = []
                 if op.get("fobj") or self.must_be_fileobj(op["path"]):
                     with self.open_location(op["path"], op.get("io")) as fh:
-                        st = KINDS[op["kind"]].autoload(fh, gpu=False)
+                        st = KINDS[op["kind"]].autoload(fh, gpu=fm.gpu())
                 else:
-                    st = KINDS[op["kind"]].autoload(self.path(op["path"]), gpu=False)
+                    loc, g = self.path(op["path"]), fm.gpu()
+                    st = KINDS[op["kind"]].autoload(loc, g) if fm.pos("autoload(location, gpu)") else KINDS[op["kind"]].autoload(loc, gpu=g)
                 self.models[op["slot"]] = st
             else:
                 raise AssertionError(t)
@@ -742,6 +783,7 @@ def run_history(ctx, case, drv_op, hooks, level_fn):
     """execute case["plan"] on the real objects (with the hooks' oracles), then on the model; compare after every op.
     hooks.before(real, op) -> pre ; hooks.after(real, op, pre, err, world) ; level_fn(op, err) -> 'property'|'aux'"""
     real = Real(case["tseed"])
+    real.ctx = ctx
     try:
         mops, obs, kept = [], [], []
         for op in case["plan"]:
